@@ -974,6 +974,124 @@ pub fn numeric_char_items(e: &EFmt) -> Vec<(ItemKind, String)> {
     out
 }
 
+/// a truth / budget number list in a judgement on `A`: `len` values, `trail` trailing separators, `full` = the most
+/// values the item takes; `texts[0]` is written without any blank, the others have blanks inside the brackets
+pub struct NumList {
+    pub kind: ItemKind,
+    pub len: usize,
+    pub trail: usize,
+    pub full: usize,
+    pub texts: Vec<String>,
+}
+
+/// Number lists of EVERY length 0..4 with 0, 1, 2 TRAILING separators (the README grammar: `n ~ (";" ~ n)* ~ ";"*`), for
+/// truth and budget, each written densely, with one blank at each single position inside the brackets (after the left
+/// bracket, around every number and separator, between trailing separators, before the right bracket), with blanks at
+/// all positions, and densely without the blank between the item and the sentence.  (The formatters never print a
+/// trailing separator or a blank inside the brackets, so formatter-shaped streams never leave the number loop through
+/// its "list is full" exit.)
+pub fn number_list_texts(e: &EFmt) -> Vec<NumList> {
+    let pj = e.sentence.punctuation_judgement;
+    let sp = e.space.parse;
+    let nums = ["0.5", "0.75", "0.4", "1", "0.9"];
+    let mut out = vec![];
+    for (kind, l, sep, r, full) in [
+        (ItemKind::Truth, e.sentence.truth_brackets.0, e.sentence.truth_separator, e.sentence.truth_brackets.1, 2usize),
+        (ItemKind::Budget, e.task.budget_brackets.0, e.task.budget_separator, e.task.budget_brackets.1, 3),
+    ] {
+        for len in 0..=4usize {
+            for trail in 0..=2usize {
+                let mut toks: Vec<&str> = vec![l];
+                for i in 0..len {
+                    if i != 0 {
+                        toks.push(sep);
+                    }
+                    toks.push(nums[i]);
+                }
+                for _ in 0..trail {
+                    toks.push(sep);
+                }
+                toks.push(r);
+                let gaps = toks.len() - 1;
+                let join = |blank_at: &dyn Fn(usize) -> bool| -> String {
+                    let mut s = String::new();
+                    for (i, t) in toks.iter().enumerate() {
+                        s.push_str(t);
+                        if i < gaps && blank_at(i) {
+                            s.push_str(sp);
+                        }
+                    }
+                    s
+                };
+                let mut items: Vec<String> = vec![join(&|_| false)];
+                for g in 0..gaps {
+                    items.push(join(&|i| i == g));
+                }
+                items.push(join(&|_| true));
+                let wrap = |item: &str, outer: &str| match kind {
+                    ItemKind::Budget => format!("{}{}A{}", item, outer, pj),
+                    _ => format!("A{}{}{}", pj, outer, item),
+                };
+                let mut texts = vec![wrap(&items[0], "")];
+                texts.extend(items.iter().map(|it| wrap(it, sp)));
+                texts.dedup();
+                out.push(NumList { kind, len, trail, full, texts });
+            }
+        }
+    }
+    out
+}
+
+/// A well-formed judgement of EXACTLY `len` characters (None when `len` is too small for the shape): `how` 0 / 1 / 2 =
+/// a short statement padded with blanks behind / in front / inside, 3 = a statement whose subject is one long name,
+/// 4 = a statement whose subject is a product of as many one-letter components as fit (the rest: blanks behind).
+/// For inputs AT size thresholds (2^k - 1, 2^k, 2^k + 1, 10^n): length guards, counters narrowed to u8 / u16, buffers.
+pub fn sized_text(e: &EFmt, len: usize, how: usize) -> Option<String> {
+    let st = &e.statement;
+    let c = &e.compound;
+    let pj = e.sentence.punctuation_judgement;
+    let sp = e.space.parse;
+    let n = |s: &str| s.chars().count();
+    if n(sp) != 1 {
+        return None;
+    }
+    let cop = st.copula_inheritance;
+    match how {
+        0 | 1 | 2 => {
+            let base = format!("{}A {} B{}{}", st.brackets.0, cop, st.brackets.1, pj);
+            let pad = sp.repeat(len.checked_sub(n(&base))?);
+            Some(match how {
+                0 => base + &pad,
+                1 => pad + &base,
+                _ => format!("{}A {}{} B{}{}", st.brackets.0, cop, pad, st.brackets.1, pj),
+            })
+        }
+        3 => {
+            let over = n(st.brackets.0) + 1 + n(cop) + 2 + n(st.brackets.1) + n(pj);
+            let k = len.checked_sub(over)?;
+            if k == 0 {
+                return None;
+            }
+            Some(format!("{}{} {} B{}{}", st.brackets.0, "a".repeat(k), cop, st.brackets.1, pj))
+        }
+        _ => {
+            let head = format!("{}{}{}{}", st.brackets.0, c.brackets.0, c.connecter_product, c.separator);
+            let tail = format!("{} {} r{}{}", c.brackets.1, cop, st.brackets.1, pj);
+            let room = len.checked_sub(n(&head) + n(&tail) + 1)?;
+            let unit = format!("{}w", c.separator);
+            let m = room / n(&unit);
+            let mut s = head;
+            s.push('w');
+            for _ in 0..m {
+                s.push_str(&unit);
+            }
+            s.push_str(&tail);
+            let pad = len - n(&s);
+            Some(s + &sp.repeat(pad))
+        }
+    }
+}
+
 /// an item of `rejected_number_items` at its place in a judgement on `A`
 pub fn item_in_sentence(e: &EFmt, kind: ItemKind, item: &str) -> String {
     let pj = e.sentence.punctuation_judgement;
